@@ -5,6 +5,7 @@ CONSTANTS
   Depth = 30
   Seed = 0
   Runs = 0
+  VBlocks = 0
 VIEW MptView
 INVARIANTS GenInv
 CHECK_DEADLOCK FALSE
